@@ -435,6 +435,28 @@ def plan(ctx):
                         enforce='Image_load_p7_header', replace=['c6_fgets', 'c6_fgetc', 'c6_strip_trailing_whitespace', 'c6_starts_with', 'c6_equals', 'c6_substr', 'c6_stoull', 'c6_at'],
                         loops=True, kind='loop-contract', object_bits=12,
                         clause_note='contracts/C06_p7.h: the header loop terminates for every stream (variant: bytes left) and an end of file inside the header is an exception'))
+    # PNG chunk framing + CRC chain (PNG spec 5.3; zlib crc32 by its documented contract, stubs/C06_png.h)
+    upc = Unit(ctx, 'png_chunk')
+    upc.raw('#include "contracts/C06_png.h"\n')
+    PNGSIG = r'static void write_png_chunk\(const char \(&type\)\[5\],\s*const void\* data, be_uint32_t size,\s*Writer&& writer\)'
+    _, pc_body, _, _ = lex.find_def(src.text('src/Image.cc'), PNGSIG, 'function')
+    BE_VARS = '(?:%s)' % '|'.join(sorted(set(['size'] + re.findall(r'\bbe_uint32_t\s+(\w+)', pc_body))))   # the objects whose declared type is be_uint32_t
+    upc.function(src, 'src/Image.cc', PNGSIG,
+                 new_header='static void write_png_chunk(const char* type, const void* data, uint32_t size_host)',
+                 body_prefix=' be_u32 size = BE_MAKE(size_host); /* be_uint32_t parameter initialised from the caller\'s integer */ ',
+                 rules=[Rule(r'\bwriter\(', 'C6P_writer(', count='+', regex=True),
+                        Rule(r'\bcrc32\(', 'C6P_crc32(', count='+', regex=True),
+                        # type-directed: a be_uint32_t object used as a value converts to the host integer; &object stays the stored bytes
+                        Rule(r'(?<![&\w.])(%s)\b(?!\s*=[^=])' % BE_VARS, r'BE_GET(\1)', count='+', regex=True),
+                        # ... and is initialised / assigned from a host integer
+                        Rule(r'(be_uint32_t\s+)?\b(%s) = ([^;]+);' % BE_VARS, lambda mo: '%s%s = BE_MAKE(%s);' % ('be_u32 ' if mo.group(1) else '', mo.group(2), mo.group(3)),
+                             count=None, regex=True)])
+    upc.write()
+    ctx.functions_under_contract += upc.functions
+    groups.append(Group(name='Image.save.png.chunk', harness='harness/C06/png_chunk.c', entry='h_png_chunk', function='write_png_chunk (src/Image.cc)',
+                        enforce='write_png_chunk', kind='loop-free', min_post=5, object_bits=12,
+                        clause_note='contracts/C06_png.h: length field, type, data, CRC over type||data in PNG chunk order, also for chunks without data (IEND); crc32 never continued from a null buffer',
+                        replay=Replay(mode='png_save', extra=['in_alpha=0x0'], **RP)))
     heavy = lambda g: 0 if ('identity[alpha' in g.name or 'load.bmp[' in g.name or 'save.bmp[' in g.name) else 1 if 'gray' in g.name else 2
     groups.sort(key=heavy)     # long-running queries first (better packing of the job slots); the sort is stable
     return groups
@@ -457,6 +479,7 @@ TRUSTED = [
     'malloc_unique (assumed to succeed), snprintf/strlen of the PPM header text, unordered_map::at on the 4-entry mask table',
     'contracts/C06_ppm.h: C06_malloc (same allocation written as sizeof(sample)*count so that cbmc types the buffer; size asserted to be a whole number of samples)',
     'stubs/libc.h: memcpy contract (PNG scan-line copy)',
+    'stubs/C06_png.h: zlib crc32 by its zlib.h contract (null buffer -> initial value; CRC values abstract), be_uint32_t as byte-swapped storage (decided by C03), writer callback record',
     'contracts/C06_bmp.h, C06_ppm.h, C06_save.h: specification macros written from the BMP / Netpbm / PNG format definitions',
     'extraction rules of props/C06.py, in particular: union DataPtrs member puns (.as8/.as16/..) rewritten to casts of .raw (cbmc loses the points-to '
     'set across union members); le_uint16_t/le_uint32_t/le_int32_t header fields are plain integers (little-endian host model; the wrappers are C03)',
@@ -475,8 +498,9 @@ DROPS = ('blocks / statement ranges of Image::load and Image::save_helper become
          'expressions are discarded with the throw lowering')
 NOT_DECIDED = [
     'dimensions above the bound (the property quantifies over 1..64; decided here: 1..8 quick, 1..16 thorough, less for wide-channel gray files)',
-    'PNG validity beyond the scan-line buffer: zlib stream (compress2), chunk framing and CRCs (write_png_chunk + crc32), IHDR/gAMA field values -- external '
-    'library calls and C++ aggregate/be_uint32_t code outside this technique (the native replay driver decodes a PNG with zlib, as a test only)',
+    'PNG validity beyond the scan-line buffer and the chunk framing / CRC chain of write_png_chunk: zlib stream (compress2), the CRC polynomial (crc32 is '
+    'abstract), IHDR/gAMA field values and the chunk order at the four call sites -- external library calls and C++ aggregate code outside this technique '
+    '(the native replay driver decodes a PNG with zlib, as a test only)',
     'PPM / PAM header text: snprintf output, fscanf / fgets / stoull parsing, whitespace handling, max-value -> channel-width mapping',
     'byte order of 16/32/64-bit PPM samples relative to the Netpbm definition (phosg writes and reads host order; only save/load identity is shown)',
     '"an independent decoder reads the same pixels" beyond the byte-position and header-field facts (no decoder is run inside the verifier)',
